@@ -143,8 +143,8 @@ class C01(Plan):
         wide_cases(g, WIDE_U8, "io", elem="u8", suffix=(), every=(4 if tier == "quick" else 1))
         # the same families with a 96-byte element type (code paths gated on size_of::<T>())
         for fam in (fam_push, fam_pop, fam_index1, fam_swap, fam_bulk, fam_mut_views):
-            g.one_step(Ns(tier, [0, 1, 2, 3, 4], [0, 1, 2, 3, 4, 5, 6]), [3], fam, elem="B")
-        wide_cases(g, [9, 13, 17, 33, 100], "mut", elem="B", every=(8 if tier == "quick" else 1))
+            g.one_step(Ns(tier, [0, 1, 2, 3, 4, 5, 6, 7], [0, 1, 2, 3, 4, 5, 6, 7, 8]), [3], fam, elem="B")
+        wide_cases(g, [9, 13, 17, 33, 100], "mut", elem="B", every=(3 if tier == "quick" else 1))
         return g.cases
 
 
@@ -629,9 +629,22 @@ class C13(Plan):
                         for form in ("slice", "array", "slice_ref", "slice_mut", "array_ref", "array_mut"):
                             if form == "slice" or list(xs) == vals or k == len(vals):
                                 c.ops.append("eq_slice %s %s" % (form, c.es(k, list(xs))))
+        # the NaN-like value 13: equal to nothing (itself included), unordered under partial_cmp, ordered under cmp
+        for N in range(0, 4):
+            sa = states_over_alphabet(N, (1, 13))
+            for M in range(0, 4):
+                sb = states_over_alphabet(M, (1, 13))
+                for (st, vals) in sa:
+                    c = g.new(N, st, vals, junk=3)
+                    c.ops.append("eq_self")
+                    for (ost, ovals) in sb[:: (2 if tier == "quick" else 1)]:
+                        ob = other_buf(c, M, ost, ovals)
+                        c.ops += ["eq " + ob, "partial_cmp " + ob] + (["cmp " + ob] if M == N else [])
+                    c.ops.append("eq_slice slice " + c.es(len(vals), vals))
         # Debug of the iterators and of a Drain: the elements still to come
         g.one_step(range(0, top + 1), [3, 4], fam_debug_views, suffix=("new",))
         wide_cases(g, WIDE_E, "view", every=(12 if tier == "quick" else 2))
+        wide_eq(g, WIDE_E, every=(3 if tier == "quick" else 1))
         return g.cases
 
     def oracle_groups(self, cases, parsed):
